@@ -527,6 +527,13 @@ def ex_rfa_rel(c):
         if rel == "affine":
             ay, by, cx, dx = (_fr(r) for r in c["maps"])
             return [run(X, Y), run([cx * v + dx for v in X], [ay * v + by for v in Y])]
+        if rel == "affine_exact":
+            ay, by, cx, dx = (float(_fr(r)) for r in c["maps"])
+            xa = np.array([float(v) for v in X])
+            ya = np.array([float(v) for v in Y])
+            o = rfa_run(dict(base), xa * cx + dx, ya * ay + by)
+            back = {"outx": vec((np.asarray(o[0], dtype=float) - dx) / cx), "outy": vec((np.asarray(o[1], dtype=float) - by) / ay)}
+            return [run(X, Y), back]
         if rel == "local":
             y2 = list(Y)
             y2[c["j"]] += _fr(c["delta"])
